@@ -18,6 +18,7 @@ FAMS_Q = {
     "provrel": ("provrel", {}),
     "consten": ("consten", {}),
     "xrel": ("xrel", {}),
+    "chain_m": ("chain", {"medium": True}),
     "bad": ("bad", {}),
     "xmod": ("xmod", {}),
     "xmod_l": ("xmod", {"small": False}),
